@@ -86,6 +86,11 @@ def thrClauses (s : State) (t : Tid) : List (String × Bool) :=
       | .done (.val i) => !th.stale.contains i && decide (i < s.nInst) && (s.inst i).st.loaded && (s.inst i).id == th.op.id
       | .done (.objs l) => l.all (fun i => !th.stale.contains i && decide (i < s.nInst) && (s.inst i).st.loaded)
       | _ => true)),
+    ("same_target", match th.op, (match th.pc with
+        | .rmWaitLoad r | .rmSetClosing r | .rmClosingWait r _ | .inClose r _ => some r | _ => none) with
+      | .removeSame _ (some tgt), some r => (e r).value == some tgt
+      | _, _ => true),
+    ("remove_op", th.pc != .removeLookup || (match th.op with | .removeSame .. => false | _ => true)),
     ("held_id", match holdsRef th.pc with | some r => (e r).id == th.op.id | none => true),
     ("started", th.started || th.pc == firstPc th.op) ]
 
